@@ -312,6 +312,17 @@ func Run(c *core.Ctx) (*core.Outcome, error) {
 		})
 	}
 
+	// the simulator's contribution (thorough tier): in-process regeneration under seeded hidden inputs
+	var inproc map[string]any
+	if c.Tier == "thorough" && c.Replay == nil {
+		vs, info, err := inProcess(c, dirs)
+		if err != nil {
+			return nil, err
+		}
+		out.Violations = append(out.Violations, vs...)
+		inproc = info
+	}
+
 	// evidence
 	var skipped []map[string]string
 	for _, d := range dirs {
@@ -362,6 +373,7 @@ func Run(c *core.Ctx) (*core.Outcome, error) {
 			"child_wall_s_total":   round1(totalWall),
 			"runs_per_hour":        perHour(len(results), time.Since(c.Start)),
 			"fault_kinds_injected": map[string]int{},
+			"in_process_seeded":    inproc,
 			"real_components":      []string{"cmd/ogen, cmd/jschemagen, tools/mkformattest built from the working tree (default toolchain, GOTOOLCHAIN=local)", "the generator, parser, templates, x/tools/imports and its `go env` child", "the real file system (scratch mirror)"},
 			"stubbed_components":   []string{"`go generate`/`go run` themselves: the directive is parsed by this check and the pre-built binary is executed with the environment go generate documents"},
 		},
